@@ -292,7 +292,13 @@ func RunWorker(p Prop, cfg WorkerConfig) (*Partial, error) {
 		}
 		part.Cases++
 		if os.Getenv("VERIF_TRACELOG") != "" {
-			part.TraceLog = append(part.TraceLog, fmt.Sprintf("%d %s %d", caseSeed, o.TraceHash, o.Runs))
+			hs := append([]string{}, o.Hashes...)
+			sort.Strings(hs)
+			vk := ""
+			if o.Violation != nil {
+				vk = o.Violation.Class + "|" + o.Violation.Key
+			}
+			part.TraceLog = append(part.TraceLog, fmt.Sprintf("%d %s %d %s %s", caseSeed, o.TraceHash, o.Runs, Hash(hs...), vk))
 		}
 		part.Runs += o.Runs
 		for _, h := range o.Hashes {
